@@ -10,36 +10,38 @@
   `Lemmas/GoBind*.lean`.  Vocabulary:
 
     * `compatible g t false` — Go type `g` is bound to schema type `t`: pointers for optional / nullable (the
-      vocabulary the property names), and the two other slot shapes `verifyCompatibility` accepts and the node code
-      serves: ONE pointer on a slot that is not nullable (struct field, list element, map value, the value behind an
-      optional field's or union member's pointer), and a bare nilable Go type (slice, []byte, `datamodel.Link`,
-      `datamodel.Node`) for an optional or a nullable struct field (`GoBind.fslot`);
+      vocabulary the property names), and the other slot shapes `verifyCompatibility` accepts and the node code
+      serves: ONE pointer more than a slot needs (`*T` on a slot that is not nullable - struct field, list element,
+      map value, the value behind an optional field's or union member's pointer -, `**T` on a nullable one, so `***T`
+      for an optional nullable field), and a bare nilable Go type (slice, []byte, `datamodel.Link`, `datamodel.Node`)
+      for an optional struct field (`GoBind.fslot`) or for ANY nullable slot (struct field, list element, map value),
+      nil (`GoVal.nilBare`) standing for absent / null;
     * `t.wf` — the schema type is well-formed (C08: distinct field names, member names, discriminants, enum
       representation strings / ints);
     * `view g t false gv` — `Wrap(&gv, t)` read in full through the node API (`none`: the read fails);
     * `assign g t tl` — `Unwrap(build(tl))` for the type-level builder of the binding (`none`: the builder refuses);
       `tl` is ANY type-level tree (struct entries in any order), the node built is `Schema.normalize t tl` (C08/C09);
-    * `gv.norm` — the normalisations Unwrap∘build applies (nil for empty slices and `Keys`, `Values` made and in step);
+    * `gv.norm` — the normalisations Unwrap∘build applies (a nil slice in a slot where nil is an empty list comes back
+      as the non-nil empty slice, empty `Keys` becomes nil, `Values` made and in step);
     * `wt g t false gv` — `gv` is a Go value of type `g` and an inhabitant of `t`;
     * `intsFit g t false v` — every integer of the canonical typed value `v` (and every enum member's
-      representation int) fits the Go kind it is bound to;
-    * `nilableSlotEmptyList g t false v` — somewhere in `v` an EMPTY list is assembled into an optional or nullable
-      struct field bound to a bare Go slice (known finding `C19/nilable-slot-empty-list-becomes-absent`).
+      representation int) fits the Go kind it is bound to.
 
-  `assign_view`, `view_total`, `view_conforms`, `assign_refuses_iff` and `unwrap_well_typed` hold at full strength
-  for the code as it is (library HEAD 7d5a566) over the whole vocabulary; their only hypotheses are `t.wf` and
-  `compatible`, i.e. what the schema compiler and `verifyCompatibility` establish before any node exists; each is
-  needed (`view_assign_needs_wf`, `assign_refuses_iff_needs_wf`, `assign_refuses_iff_needs_compatible`).
-  `view_assign` is FALSE for the bare-slice slots because of the known finding
-  `C19/nilable-slot-empty-list-becomes-absent` (the list assembler only appends: an empty list leaves the slice nil,
-  and nil reads as absent / null): `view_assign_partial` excludes exactly that (`nilableSlotEmptyList … = false`),
-  `view_assign_fails_nilable_slot_empty_list` is the counterexample, and `view_norm_partial` /
-  `norm_loses_empty_list_in_nilable_slot` say the same of the normalisation `GoVal.norm` that `assign_view` and
-  `marshal_unmarshal` are stated up to.  For Go types without such a slot the side condition is vacuous
-  (no bare slot, nothing to exclude: the pointer vocabulary the property names is covered in full).  Two deviations that earlier versions of this file stated as counterexamples
-  (`view_assign_fails_enum` / `assign_accepts_unfitting_enum`, `view_assign_fails_uint` /
-  `view_total_needs_readable_uint`) were repaired in the library (commits 7093040, f5ad5bb); the same inputs are now
-  theorems of the repaired behaviour: `enum_300_into_int8_is_refused`, `uint_above_int64_reads_back`.
+  EVERY theorem below holds at full strength for the code as it is (library HEAD 7d5a566 plus the five bindnode
+  repairs of this round) over the whole vocabulary; the only hypotheses are `t.wf` and `compatible`, i.e. what the
+  schema compiler and `verifyCompatibility` establish before any node exists; each is needed (`view_assign_needs_wf`,
+  `assign_refuses_iff_needs_wf`, `assign_refuses_iff_needs_compatible`).  Deviations that earlier versions of this
+  file stated as counterexamples were repaired in the library; the same inputs are now theorems of the repaired
+  behaviour:
+    `view_assign_fails_enum` / `assign_accepts_unfitting_enum` (commit 7093040) → `enum_300_into_int8_is_refused`;
+    `view_assign_fails_uint` / `view_total_needs_readable_uint` (commit f5ad5bb) → `uint_above_int64_reads_back`;
+    `view_assign_fails_nilable_slot_empty_list` / `norm_loses_empty_list_in_nilable_slot` (an empty list or empty
+    bytes assembled into a bare nilable slot used to leave the slot nil, i.e. absent / null: the list assembler now
+    makes the slice when the list is begun, `AssignBytes` stores a non-nil `[]byte`) →
+    `empty_list_in_bare_nilable_slot_stays_empty`, `norm_keeps_empty_list_in_nilable_slot`, and `view_assign` /
+    `view_norm` no longer carry a side condition.
+  The shapes that the other three repairs made usable are theorems too: `nullable_elements_in_bare_nilable`
+  (nullable list elements / map values bound to bare nilable types), `double_pointer_slots` (`**T` / `***T`).
 -/
 import IpldModel.Lemmas.GoBindAssignView
 import IpldModel.Lemmas.GoBindViewAssign
@@ -58,48 +60,113 @@ theorem unwrap_well_typed (g : GoTy) (t : Ty) (tl : TL) (gv : GoVal) (hwf : t.wf
     (hc : compatible g t false = true) (ha : assign g t tl = some gv) : wt g t false gv = true :=
   assign_wt g t tl gv hwf hc ha
 
-/-- **view_assign_partial.**  For every compatible pair of a Go type and a well-formed schema type and every
-    type-level tree `tl` in which no empty list goes into an optional / nullable field bound to a bare Go slice: if
-    the builder accepts `tl` and `gv` is the Go value behind the built node, then wrapping `gv` shows exactly what was
-    assembled (the normal form of `tl`: fields in declaration order, unset optional fields explicit). -/
-theorem view_assign_partial (g : GoTy) (t : Ty) (tl : TL) (gv : GoVal) (hwf : t.wf = true)
-    (hc : compatible g t false = true) (hne : nilableSlotEmptyList g t false (normalize t tl) = false)
-    (ha : assign g t tl = some gv) :
+/-- **view_assign.**  For every compatible pair of a Go type and a well-formed schema type and every type-level tree
+    `tl`: if the builder accepts `tl` and `gv` is the Go value behind the built node, then wrapping `gv` shows exactly
+    what was assembled (the normal form of `tl`: fields in declaration order, unset optional fields explicit). -/
+theorem view_assign (g : GoTy) (t : Ty) (tl : TL) (gv : GoVal) (hwf : t.wf = true)
+    (hc : compatible g t false = true) (ha : assign g t tl = some gv) :
     view g t false gv = some (normalize t tl) := by
   obtain ⟨w, hw⟩ := view_isSome gv g t false hc (assign_wt g t tl gv hwf hc ha)
-  rw [hw, assign_view g t tl gv hwf hc hne ha w hw]
+  rw [hw, GoBind.assign_view g t tl gv hwf hc ha w hw]
 
-/-- **view_assign_fails_nilable_slot_empty_list** (known finding `C19/nilable-slot-empty-list-becomes-absent`).
-    `struct { a optional [String] }` bound to `struct{ A []string }` (no pointer: `verifyCompatibility` accepts a
-    nilable type for an optional field), and the nullable variant.  The builder accepts `{a: []}`; the list assembler
-    only appends to the zero value, so the slice stays nil, and nil in such a field reads as absent (null).  Go:
-    `ipld.Unmarshal([]byte(`{"A":[]}`), dagjson.Decode, &v, T)` then `Marshal` gives `{}`. -/
-theorem view_assign_fails_nilable_slot_empty_list :
+/-- **empty_list_in_bare_nilable_slot_stays_empty** (was `view_assign_fails_nilable_slot_empty_list`, the known
+    finding `C19/nilable-slot-empty-list-becomes-absent`, repaired).  `struct { a optional [String] }` bound to
+    `struct{ A []string }` (no pointer: `verifyCompatibility` accepts a nilable type for an optional field), the
+    nullable variant, and nullable Bytes in a `[]byte`: the builder accepts `{a: []}` and stores a NON-NIL empty slice
+    (`BeginList` makes it), which reads as the empty list; nil is stored for absent / null only.  Go:
+    `ipld.Unmarshal([]byte(`{"A":[]}`), dagjson.Decode, &v, T)` then `Marshal` gives `{"A":[]}` again. -/
+theorem empty_list_in_bare_nilable_slot_stays_empty :
     compatible (.struct (GoFields.ofList [([97], .slice .str)]))
       (.struct (Fields.ofList [⟨[97], [97], true, false, .list .str false⟩]) .map) false = true ∧
     assign (.struct (GoFields.ofList [([97], .slice .str)]))
       (.struct (Fields.ofList [⟨[97], [97], true, false, .list .str false⟩]) .map)
-      (.map (TLKVs.ofList [([97], .list .nil)])) = some (.struct (GoVals.ofList [.nilSlice])) ∧
+      (.map (TLKVs.ofList [([97], .list .nil)])) = some (.struct (GoVals.ofList [.slice .nil])) ∧
     view (.struct (GoFields.ofList [([97], .slice .str)]))
       (.struct (Fields.ofList [⟨[97], [97], true, false, .list .str false⟩]) .map) false
-      (.struct (GoVals.ofList [.nilSlice])) = some (.map (TLKVs.ofList [([97], .absent)])) ∧
-    nilableSlotEmptyList (.struct (GoFields.ofList [([97], .slice .str)]))
-      (.struct (Fields.ofList [⟨[97], [97], true, false, .list .str false⟩]) .map) false
-      (.map (TLKVs.ofList [([97], .list .nil)])) = true ∧
-    -- the nullable variant reads null
+      (.struct (GoVals.ofList [.slice .nil])) = some (.map (TLKVs.ofList [([97], .list .nil)])) ∧
+    assign (.struct (GoFields.ofList [([97], .slice .str)]))
+      (.struct (Fields.ofList [⟨[97], [97], true, false, .list .str false⟩]) .map)
+      (.map .nil) = some (.struct (GoVals.ofList [.nilBare])) ∧
+    -- the nullable variant
     assign (.struct (GoFields.ofList [([97], .slice .str)]))
       (.struct (Fields.ofList [⟨[97], [97], false, true, .list .str false⟩]) .map)
-      (.map (TLKVs.ofList [([97], .list .nil)])) = some (.struct (GoVals.ofList [.nilSlice])) ∧
+      (.map (TLKVs.ofList [([97], .list .nil)])) = some (.struct (GoVals.ofList [.slice .nil])) ∧
     view (.struct (GoFields.ofList [([97], .slice .str)]))
       (.struct (Fields.ofList [⟨[97], [97], false, true, .list .str false⟩]) .map) false
-      (.struct (GoVals.ofList [.nilSlice])) = some (.map (TLKVs.ofList [([97], .null)])) ∧
-    -- behind a pointer (the vocabulary the property names) the empty list survives
+      (.struct (GoVals.ofList [.slice .nil])) = some (.map (TLKVs.ofList [([97], .list .nil)])) ∧
+    assign (.struct (GoFields.ofList [([97], .slice .str)]))
+      (.struct (Fields.ofList [⟨[97], [97], false, true, .list .str false⟩]) .map)
+      (.map (TLKVs.ofList [([97], .null)])) = some (.struct (GoVals.ofList [.nilBare])) ∧
+    -- empty bytes in a nullable `[]byte` (was `C19/nilable-slot-empty-bytes-becomes-absent-dagcbor`)
+    assign (.struct (GoFields.ofList [([97], .bytes)]))
+      (.struct (Fields.ofList [⟨[97], [97], false, true, .bytes⟩]) .map)
+      (.map (TLKVs.ofList [([97], .bytes [])])) = some (.struct (GoVals.ofList [.bytes []])) ∧
+    view (.struct (GoFields.ofList [([97], .bytes)]))
+      (.struct (Fields.ofList [⟨[97], [97], false, true, .bytes⟩]) .map) false
+      (.struct (GoVals.ofList [.bytes []])) = some (.map (TLKVs.ofList [([97], .bytes [])])) ∧
+    -- behind a pointer (the vocabulary the property names) likewise
     assign (.struct (GoFields.ofList [([97], .ptr (.slice .str))]))
       (.struct (Fields.ofList [⟨[97], [97], true, false, .list .str false⟩]) .map)
-      (.map (TLKVs.ofList [([97], .list .nil)])) = some (.struct (GoVals.ofList [.ptr .nilSlice])) ∧
+      (.map (TLKVs.ofList [([97], .list .nil)])) = some (.struct (GoVals.ofList [.ptr (.slice .nil)])) ∧
     view (.struct (GoFields.ofList [([97], .ptr (.slice .str))]))
       (.struct (Fields.ofList [⟨[97], [97], true, false, .list .str false⟩]) .map) false
-      (.struct (GoVals.ofList [.ptr .nilSlice])) = some (.map (TLKVs.ofList [([97], .list .nil)])) := by decide
+      (.struct (GoVals.ofList [.ptr (.slice .nil)])) = some (.map (TLKVs.ofList [([97], .list .nil)])) := by decide
+
+/-- **nullable_elements_in_bare_nilable.**  Nullable list elements and map values bound to bare nilable Go types
+    (`[][]byte`, `[][]string`, `map[string]datamodel.Link`): nil is null, every other value - the empty ones
+    included - is itself, in both directions (reading such elements used to panic:
+    `C19/nullable-element-bare-slice-read-panics`, repaired). -/
+theorem nullable_elements_in_bare_nilable :
+    compatible (.slice .bytes) (.list .bytes true) false = true ∧
+    view (.slice .bytes) (.list .bytes true) false (.slice (GoVals.ofList [.nilBare, .bytes [], .bytes [1]]))
+      = some (.list (TLs.ofList [.null, .bytes [], .bytes [1]])) ∧
+    assign (.slice .bytes) (.list .bytes true) (.list (TLs.ofList [.null, .bytes [], .bytes [1]]))
+      = some (.slice (GoVals.ofList [.nilBare, .bytes [], .bytes [1]])) ∧
+    view (.slice (.slice .str)) (.list (.list .str false) true) false
+      (.slice (GoVals.ofList [.nilBare, .slice .nil, .slice (GoVals.ofList [.str [120]])]))
+      = some (.list (TLs.ofList [.null, .list .nil, .list (TLs.ofList [.str [120]])])) ∧
+    assign (.slice (.slice .str)) (.list (.list .str false) true)
+      (.list (TLs.ofList [.null, .list .nil, .list (TLs.ofList [.str [120]])]))
+      = some (.slice (GoVals.ofList [.nilBare, .slice .nil, .slice (GoVals.ofList [.str [120]])])) ∧
+    compatible (.omap (.link .iface)) (.map .link true) false = true ∧
+    view (.omap (.link .iface)) (.map .link true) false
+      (.omap (some [[97], [98]]) false (GoKVs.ofList [([97], .nilBare), ([98], .link [1])]))
+      = some (.map (TLKVs.ofList [([97], .null), ([98], .link [1])])) ∧
+    assign (.omap (.link .iface)) (.map .link true) (.map (TLKVs.ofList [([97], .null), ([98], .link [1])]))
+      = some (.omap (some [[97], [98]]) false (GoKVs.ofList [([97], .nilBare), ([98], .link [1])])) ∧
+    -- a type that is not nilable without a pointer is not accepted there, nor a concrete link type
+    compatible (.slice .str) (.list .str true) false = false ∧
+    compatible (.slice (.link .cid)) (.list .link true) false = false := by decide
+
+/-- **double_pointer_slots.**  One pointer more than the slot needs: `**int64` for a nullable Int, `***string` for an
+    optional nullable String.  nil at the outermost level is null (absent for the optional field), the value sits
+    behind fresh pointers at every level (building such a value used to panic:
+    `C19/nullable-double-pointer-build-panics`, repaired). -/
+theorem double_pointer_slots :
+    compatible (.slice (.ptr (.ptr (.int .i64)))) (.list .int true) false = true ∧
+    assign (.slice (.ptr (.ptr (.int .i64)))) (.list .int true) (.list (TLs.ofList [.null, .int 7]))
+      = some (.slice (GoVals.ofList [.nilPtr, .ptr (.ptr (.int 7))])) ∧
+    view (.slice (.ptr (.ptr (.int .i64)))) (.list .int true) false
+      (.slice (GoVals.ofList [.nilPtr, .ptr (.ptr (.int 7))])) = some (.list (TLs.ofList [.null, .int 7])) ∧
+    compatible (.struct (GoFields.ofList [([97], .ptr (.ptr (.ptr .str)))]))
+      (.struct (Fields.ofList [⟨[97], [97], true, true, .str⟩]) .map) false = true ∧
+    assign (.struct (GoFields.ofList [([97], .ptr (.ptr (.ptr .str)))]))
+      (.struct (Fields.ofList [⟨[97], [97], true, true, .str⟩]) .map) (.map .nil)
+      = some (.struct (GoVals.ofList [.nilPtr])) ∧
+    assign (.struct (GoFields.ofList [([97], .ptr (.ptr (.ptr .str)))]))
+      (.struct (Fields.ofList [⟨[97], [97], true, true, .str⟩]) .map) (.map (TLKVs.ofList [([97], .null)]))
+      = some (.struct (GoVals.ofList [.ptr .nilPtr])) ∧
+    assign (.struct (GoFields.ofList [([97], .ptr (.ptr (.ptr .str)))]))
+      (.struct (Fields.ofList [⟨[97], [97], true, true, .str⟩]) .map) (.map (TLKVs.ofList [([97], .str [120])]))
+      = some (.struct (GoVals.ofList [.ptr (.ptr (.ptr (.str [120])))])) ∧
+    view (.struct (GoFields.ofList [([97], .ptr (.ptr (.ptr .str)))]))
+      (.struct (Fields.ofList [⟨[97], [97], true, true, .str⟩]) .map) false
+      (.struct (GoVals.ofList [.ptr (.ptr (.ptr (.str [120])))])) = some (.map (TLKVs.ofList [([97], .str [120])])) ∧
+    -- two pointers where one too many is already there are refused; an optional nullable field needs two
+    compatible (.slice (.ptr (.ptr (.int .i64)))) (.list .int false) false = false ∧
+    compatible (.slice (.ptr (.ptr (.ptr (.int .i64))))) (.list .int true) false = false ∧
+    compatible (.struct (GoFields.ofList [([97], .ptr .str)]))
+      (.struct (Fields.ofList [⟨[97], [97], true, true, .str⟩]) .map) false = false := by decide
 
 /-- **pointer_uint64_reads_back.**  A required, non-nullable Int bound to a Go POINTER (`Count *uint64`, `[]*uint64`):
     `newNode` looks through the pointer (`nonPtrVal`) when it decides on the unsigned view, so 2^64-1 is stored behind
@@ -119,12 +186,12 @@ theorem optional_in_bare_nilable_is_absent :
     view (.struct (GoFields.ofList [([97], .slice .str), ([98], .bytes), ([99], .link .iface)]))
       (.struct (Fields.ofList [⟨[97], [97], true, false, .list .str false⟩, ⟨[98], [98], true, false, .bytes⟩,
         ⟨[99], [99], true, false, .link⟩]) .map) false
-      (.struct (GoVals.ofList [.nilSlice, .nilSlice, .nilIface]))
+      (.struct (GoVals.ofList [.nilBare, .nilBare, .nilBare]))
       = some (.map (TLKVs.ofList [([97], .absent), ([98], .absent), ([99], .absent)])) ∧
     assign (.struct (GoFields.ofList [([97], .slice .str), ([98], .bytes), ([99], .link .iface)]))
       (.struct (Fields.ofList [⟨[97], [97], true, false, .list .str false⟩, ⟨[98], [98], true, false, .bytes⟩,
         ⟨[99], [99], true, false, .link⟩]) .map) (.map .nil)
-      = some (.struct (GoVals.ofList [.nilSlice, .nilSlice, .nilIface])) ∧
+      = some (.struct (GoVals.ofList [.nilBare, .nilBare, .nilBare])) ∧
     view (.struct (GoFields.ofList [([97], .slice .str), ([98], .bytes), ([99], .link .iface)]))
       (.struct (Fields.ofList [⟨[97], [97], true, false, .list .str false⟩, ⟨[98], [98], true, false, .bytes⟩,
         ⟨[99], [99], true, false, .link⟩]) .map) false
@@ -167,7 +234,8 @@ theorem uint_above_int64_reads_back :
 
 /-- **assign_view.**  For every compatible pair, every well-typed Go value `gv` of the Go type and the content `v`
     that wrapping it shows: building `v` through the type-level builder and unwrapping gives `gv` up to the stated
-    normalisation (`GoVal.norm`: empty slices and `Keys` become nil, `Values` is made and lists exactly `Keys`). -/
+    normalisation (`GoVal.norm`: a nil slice that stands for an empty list becomes the non-nil empty slice, empty
+    `Keys` becomes nil, `Values` is made and lists exactly `Keys`). -/
 theorem assign_view (g : GoTy) (t : Ty) (gv : GoVal) (v : TL) (hwf : t.wf = true)
     (hc : compatible g t false = true) (hwt : wt g t false gv = true) (hv : view g t false gv = some v) :
     assign g t v = some gv.norm :=
@@ -179,37 +247,39 @@ theorem assign_view_normal (g : GoTy) (t : Ty) (gv : GoVal) (v : TL) (hwf : t.wf
     (hn : gv.norm = gv) : assign g t v = some gv := by
   rw [assign_view g t gv v hwf hc hwt hv, hn]
 
-/-- The normalisation is not the identity: a non-nil empty slice comes back nil, nil `Values` comes back made. -/
+/-- The normalisation is not the identity: a nil slice comes back as the non-nil empty slice, nil `Values` comes
+    back made. -/
 theorem norm_is_needed :
-    view (.slice .str) (.list .str false) false (.slice .nil) = some (.list .nil) ∧
-    assign (.slice .str) (.list .str false) (.list .nil) = some .nilSlice ∧
+    view (.slice .str) (.list .str false) false .nilSlice = some (.list .nil) ∧
+    assign (.slice .str) (.list .str false) (.list .nil) = some (.slice .nil) ∧
+    GoVal.nilSlice.norm = .slice .nil ∧
     view (.omap .str) (.map .str false) false (.omap (some []) true .nil) = some (.map .nil) ∧
     assign (.omap .str) (.map .str false) (.map .nil) = some (.omap none false .nil) := by decide
 
-/-- **view_norm_partial.**  The normalisation does not change the data held: the normalised value shows what the
-    value shows - unless the value holds an empty, non-nil slice in an optional / nullable field bound to the bare
-    slice (then Unwrap∘build, and Marshal → Unmarshal, turn "empty list" into absent / null: the known finding). -/
-theorem view_norm_partial (g : GoTy) (t : Ty) (gv : GoVal) (v : TL) (hwf : t.wf = true)
-    (hc : compatible g t false = true) (hwt : wt g t false gv = true) (hv : view g t false gv = some v)
-    (hne : nilableSlotEmptyList g t false v = false) : view g t false gv.norm = some v := by
+/-- **view_norm.**  The normalisation does not change the data held: the normalised value shows what the value
+    shows. -/
+theorem view_norm (g : GoTy) (t : Ty) (gv : GoVal) (v : TL) (hwf : t.wf = true)
+    (hc : compatible g t false = true) (hwt : wt g t false gv = true) (hv : view g t false gv = some v) :
+    view g t false gv.norm = some v := by
   have hn := (view_good gv g t false hwf hc hwt v hv).2.1
-  have := view_assign_partial g t v gv.norm hwf hc (by rw [hn]; exact hne) (assign_view g t gv v hwf hc hwt hv)
+  have := view_assign g t v gv.norm hwf hc (assign_view g t gv v hwf hc hwt hv)
   rwa [hn] at this
 
-/-- **norm_loses_empty_list_in_nilable_slot** (known finding `C19/nilable-slot-empty-list-becomes-absent`, seen from
-    the Go value): `struct{ A []string }{A: []string{}}` with `a` optional shows `{a: []}`; rebuilt (or marshalled and
-    unmarshalled) it is `{A: nil}`, which shows `{a: absent}`. -/
-theorem norm_loses_empty_list_in_nilable_slot :
+/-- **norm_keeps_empty_list_in_nilable_slot** (was `norm_loses_empty_list_in_nilable_slot`, the known finding
+    `C19/nilable-slot-empty-list-becomes-absent` seen from the Go value, repaired):
+    `struct{ A []string }{A: []string{}}` with `a` optional shows `{a: []}`, is its own normal form, and is what
+    building `{a: []}` (or Marshal → Unmarshal) gives. -/
+theorem norm_keeps_empty_list_in_nilable_slot :
     wt (.struct (GoFields.ofList [([97], .slice .str)]))
       (.struct (Fields.ofList [⟨[97], [97], true, false, .list .str false⟩]) .map) false
       (.struct (GoVals.ofList [.slice .nil])) = true ∧
     view (.struct (GoFields.ofList [([97], .slice .str)]))
       (.struct (Fields.ofList [⟨[97], [97], true, false, .list .str false⟩]) .map) false
       (.struct (GoVals.ofList [.slice .nil])) = some (.map (TLKVs.ofList [([97], .list .nil)])) ∧
-    (GoVal.struct (GoVals.ofList [.slice .nil])).norm = .struct (GoVals.ofList [.nilSlice]) ∧
-    view (.struct (GoFields.ofList [([97], .slice .str)]))
-      (.struct (Fields.ofList [⟨[97], [97], true, false, .list .str false⟩]) .map) false
-      (.struct (GoVals.ofList [.nilSlice])) = some (.map (TLKVs.ofList [([97], .absent)])) := by decide
+    (GoVal.struct (GoVals.ofList [.slice .nil])).norm = .struct (GoVals.ofList [.slice .nil]) ∧
+    assign (.struct (GoFields.ofList [([97], .slice .str)]))
+      (.struct (Fields.ofList [⟨[97], [97], true, false, .list .str false⟩]) .map)
+      (.map (TLKVs.ofList [([97], .list .nil)])) = some (.struct (GoVals.ofList [.slice .nil])) := by decide
 
 /-! ## Every well-typed value can be wrapped and read -/
 
@@ -316,7 +386,8 @@ theorem marshal_unmarshal {β : Type} (enc : DM → β) (dec : β → Option DM)
 
 /-- `struct { a Int; b optional String; c optional nullable Int; d [nullable Bool]; e {String:Int};
              f union { | S String "s" | I enum{A=1,B=2}/int "i" } keyed;
-             g Int; h optional [String]; i nullable Bytes; j optional Link }` -/
+             g Int; h optional [String]; i nullable Bytes; j optional Link;
+             k [nullable Link]; l nullable Int; m optional nullable String }` -/
 def exSchema : Ty :=
   .struct (Fields.ofList [⟨[97], [97], false, false, .int⟩, ⟨[98], [98], true, false, .str⟩,
     ⟨[99], [99], true, true, .int⟩, ⟨[100], [100], false, false, .list .bool true⟩,
@@ -324,66 +395,78 @@ def exSchema : Ty :=
     ⟨[102], [102], false, false, .union (Members.ofList [⟨[83], [115], .str, .str⟩,
       ⟨[73], [105], .int, .enum [⟨[65], [65], 1⟩, ⟨[66], [66], 2⟩] .int⟩]) .keyed⟩,
     ⟨[103], [103], false, false, .int⟩, ⟨[104], [104], true, false, .list .str false⟩,
-    ⟨[105], [105], false, true, .bytes⟩, ⟨[106], [106], true, false, .link⟩]) .map
+    ⟨[105], [105], false, true, .bytes⟩, ⟨[106], [106], true, false, .link⟩,
+    ⟨[107], [107], false, false, .list .link true⟩, ⟨[108], [108], false, true, .int⟩,
+    ⟨[109], [109], true, true, .str⟩]) .map
 
 /-- `struct { A int8; B *string; C **uint64; D []*bool; E struct{Keys []string; Values map[string]uint16};
-             F struct{ S *string; I *uint8 }; G *uint64; H []string; I []byte; J datamodel.Link }`
-    (G: one pointer on a required field; H, I, J: bare nilable types for optional / nullable fields) -/
+             F struct{ S *string; I *uint8 }; G *uint64; H []string; I []byte; J datamodel.Link;
+             K []datamodel.Link; L **int64; M ***string }`
+    (G: one pointer on a required field; H, I, J: bare nilable types for optional / nullable fields; K: for nullable
+    elements; L, M: one pointer more than nullable / optional nullable need) -/
 def exGo : GoTy :=
   .struct (GoFields.ofList [([97], .int .i8), ([98], .ptr .str), ([99], .ptr (.ptr (.int .u64))),
     ([100], .slice (.ptr .bool)), ([101], .omap (.int .u16)),
     ([102], .struct (GoFields.ofList [([83], .ptr .str), ([73], .ptr (.int .u8))])),
-    ([103], .ptr (.int .u64)), ([104], .slice .str), ([105], .bytes), ([106], .link .iface)])
+    ([103], .ptr (.int .u64)), ([104], .slice .str), ([105], .bytes), ([106], .link .iface),
+    ([107], .slice (.link .iface)), ([108], .ptr (.ptr (.int .i64))), ([109], .ptr (.ptr (.ptr .str)))])
 
 /-- `{A: -5, B: nil, C: &nil, D: {nil, &true}, E: {Keys: {"b","a"}, Values: {"a":1, "b":2}}, F: {I: &2},
-      G: &(1<<64-1), H: {"x"}, I: nil, J: nil}` -/
+      G: &(1<<64-1), H: {"x"}, I: nil, J: nil, K: {nil, cid}, L: &&7, M: &nil}` -/
 def exVal : GoVal :=
   .struct (GoVals.ofList [.int (-5), .nilPtr, .ptr .nilPtr, .slice (GoVals.ofList [.nilPtr, .ptr (.bool true)]),
     .omap (some [[98], [97]]) false (GoKVs.ofList [([97], .int 1), ([98], .int 2)]),
     .struct (GoVals.ofList [.nilPtr, .ptr (.int 2)]),
-    .ptr (.int 18446744073709551615), .slice (GoVals.ofList [.str [120]]), .nilSlice, .nilIface])
+    .ptr (.int 18446744073709551615), .slice (GoVals.ofList [.str [120]]), .nilBare, .nilBare,
+    .slice (GoVals.ofList [.nilBare, .link [1]]), .ptr (.ptr (.int 7)), .ptr .nilPtr])
 
 /-- `{a: -5, b: absent, c: null, d: [null, true], e: {"b": 2, "a": 1}, f: {I: "B"},
-      g: 2^64-1, h: ["x"], i: null, j: absent}` -/
+      g: 2^64-1, h: ["x"], i: null, j: absent, k: [null, cid], l: 7, m: null}` -/
 def exTL : TL :=
   .map (TLKVs.ofList [([97], .int (-5)), ([98], .absent), ([99], .null),
     ([100], .list (TLs.ofList [.null, .bool true])),
     ([101], .map (TLKVs.ofList [([98], .int 2), ([97], .int 1)])),
     ([102], .map (TLKVs.ofList [([73], .str [66])])),
     ([103], .int 18446744073709551615), ([104], .list (TLs.ofList [.str [120]])), ([105], .null),
-    ([106], .absent)])
+    ([106], .absent), ([107], .list (TLs.ofList [.null, .link [1]])), ([108], .int 7), ([109], .null)])
 
 /-- the same tree with the fields in another order and the unset fields left out, as a builder may be fed -/
 def exTLShuffled : TL :=
-  .map (TLKVs.ofList [([102], .map (TLKVs.ofList [([73], .str [66])])), ([97], .int (-5)),
+  .map (TLKVs.ofList [([102], .map (TLKVs.ofList [([73], .str [66])])), ([97], .int (-5)), ([109], .null),
     ([105], .null), ([101], .map (TLKVs.ofList [([98], .int 2), ([97], .int 1)])), ([99], .null),
-    ([104], .list (TLs.ofList [.str [120]])), ([100], .list (TLs.ofList [.null, .bool true])),
-    ([103], .int 18446744073709551615)])
+    ([108], .int 7), ([104], .list (TLs.ofList [.str [120]])), ([100], .list (TLs.ofList [.null, .bool true])),
+    ([107], .list (TLs.ofList [.null, .link [1]])), ([103], .int 18446744073709551615)])
 
 -- the hypotheses of every theorem above are satisfiable together, on a value that uses every construction
 example : exSchema.wf = true ∧ compatible exGo exSchema false = true ∧
-    wt exGo exSchema false exVal = true ∧ nilableSlotEmptyList exGo exSchema false exTL = false := by decide
+    wt exGo exSchema false exVal = true := by decide
 -- view_total / view_conforms / view_normal
 example : view exGo exSchema false exVal = some exTL ∧ conforms exSchema false exTL = true ∧
     normalize exSchema exTL = exTL := by decide
--- assign_view / view_norm_partial: here the value is in normal form except for the order of the association list
+-- assign_view / view_norm: here the value is in normal form except for the order of the association list
 example : assign exGo exSchema exTL = some exVal.norm ∧ exVal.norm ≠ exVal ∧ exVal.norm.norm = exVal.norm ∧
     view exGo exSchema false exVal.norm = some exTL := by decide
--- view_assign_partial / unwrap_well_typed, fed in another field order
+-- view_assign / unwrap_well_typed, fed in another field order
 example : assign exGo exSchema exTLShuffled = some exVal.norm ∧ normalize exSchema exTLShuffled = exTL ∧
     view exGo exSchema false exVal.norm = some exTL ∧ wt exGo exSchema false exVal.norm = true := by decide
 -- assign_refuses_iff: 200 does not fit the int8 field `a`; an unknown union member does not conform
 example : assign exGo exSchema (.map (TLKVs.ofList [([97], .int 200), ([99], .null), ([100], .list .nil),
-      ([101], .map .nil), ([102], .map (TLKVs.ofList [([83], .str [])])), ([103], .int 1), ([105], .bytes [])])) = none ∧
+      ([101], .map .nil), ([102], .map (TLKVs.ofList [([83], .str [])])), ([103], .int 1), ([105], .bytes []),
+      ([107], .list .nil), ([108], .null)])) = none ∧
     intsFit exGo exSchema false (normalize exSchema (.map (TLKVs.ofList [([97], .int 200), ([99], .null),
       ([100], .list .nil), ([101], .map .nil), ([102], .map (TLKVs.ofList [([83], .str [])])), ([103], .int 1),
-      ([105], .bytes [])]))) = false := by decide
+      ([105], .bytes []), ([107], .list .nil), ([108], .null)]))) = false ∧
+    -- ... and with 100 in its place the same tree is stored
+    (assign exGo exSchema (.map (TLKVs.ofList [([97], .int 100), ([99], .null), ([100], .list .nil),
+      ([101], .map .nil), ([102], .map (TLKVs.ofList [([83], .str [])])), ([103], .int 1), ([105], .bytes []),
+      ([107], .list .nil), ([108], .null)]))).isSome = true := by decide
 -- marshal_unmarshal: the representation of the example (keyed union, enum as int, absent fields omitted)
 example : unambig exSchema exTL = true ∧
     repr exSchema exTL = some (.map (DMKVs.ofList [([97], .int (-5)), ([99], .null),
       ([100], .list (DMs.ofList [.null, .bool true])),
       ([101], .map (DMKVs.ofList [([98], .int 2), ([97], .int 1)])),
       ([102], .map (DMKVs.ofList [([105], .int 2)])),
-      ([103], .int 18446744073709551615), ([104], .list (DMs.ofList [.str [120]])), ([105], .null)])) := by decide
+      ([103], .int 18446744073709551615), ([104], .list (DMs.ofList [.str [120]])), ([105], .null),
+      ([107], .list (DMs.ofList [.null, .link [1]])), ([108], .int 7), ([109], .null)])) := by decide
 
 end Ipld.Props.C19
